@@ -9,7 +9,7 @@ use crate::engine::{self, Built};
 use crate::gen::{self, RandCfg};
 use fancy_regex::{Expr, Regex};
 
-pub const VARIANTS: [&str; 11] = [
+pub const VARIANTS: [&str; 12] = [
     "x-mode, one space between tokens, spaced braces",
     "x-mode, mixed whitespace and # comments",
     "(?#..) comments between tokens",
@@ -21,6 +21,7 @@ pub const VARIANTS: [&str; 11] = [
     "scoped flag groups as inline flags in a non-capturing group",
     "\\x{H} literals + (?#) comments + \\A \\z",
     "hash-chosen mixture",
+    "top-level scoped flag group (?on:X) as (?on)X(?-on)",
 ];
 
 pub struct Respell {
@@ -64,6 +65,11 @@ pub fn respell(n: &Node, variant: usize) -> String {
         7 => n.to_pattern_with(&PrintOpts { poss_as_atomic: true, anchors_az: az, raw_newline: true, short_escapes: true, ..Default::default() }),
         8 => n.to_pattern_with(&PrintOpts { flags_inline: true, ..Default::default() }),
         9 => join(&n.tokens(&PrintOpts { lit_style: 2, anchors_az: az, ..Default::default() }), |i| if i % 3 == 0 { "(?#q)" } else { "" }),
+        11 => {
+            // only meaningful when nothing else sets flags around the toggled groups
+            let nested = n.any(|x| matches!(x, Flags(_, _, c) if c.any(|y| matches!(y, Flags(..) | SetFlags(..) | AnyNl | Assert(A::StartLine) | Assert(A::EndLine))))) || n.any(|x| matches!(x, SetFlags(..)));
+            n.to_pattern_with(&PrintOpts { flags_toggle: !nested, ..Default::default() })
+        }
         _ => {
             let o = PrintOpts {
                 lit_style: (h % 6) as u8,
@@ -132,7 +138,9 @@ impl PatProp for Respell {
             Built::Err(e) => return Prep::Fail(Fail::new("respelled-does-not-compile", format!("{:?} compiles like {:?}", pat, base), engine::err_kind(&e))),
             Built::Panic(p) => return Prep::Fail(Fail::new("compile-panic", "Ok or Err", p)),
         };
-        // same expression tree
+        // same expression tree (the toggle spelling flattens a nested concatenation, which is a different
+        // tree by construction: only its behaviour is compared)
+        if self.variant != 11 {
         match (Expr::parse_tree(&base), Expr::parse_tree(pat)) {
             (Ok(ta), Ok(tb)) => {
                 if !expr_eq(&ta.expr, &tb.expr) {
@@ -140,6 +148,7 @@ impl PatProp for Respell {
                 }
             }
             _ => return Prep::Fail(Fail::new("tree-differs", "both parse", "one does not parse")),
+        }
         }
         let differs = base != pat;
         st.class(if differs { "spelling:changed" } else { "spelling:identical" });
@@ -238,7 +247,7 @@ fn flag_bases() -> Vec<Node> {
     let mut cfg = gen::common_cfg();
     cfg.leaves = vec![Lit('a'), Lit('B'), Lit('é'), Any, Class(false, vec![('a', 'b')]), Assert(A::StartText), Assert(A::EndText), Lit('\n'), AnyNl, Assert(A::StartLine), Assert(A::EndLine)];
     for b in space(&cfg, 3, false) {
-        for (on, off) in [("i", ""), ("s", ""), ("m", ""), ("U", ""), ("is", "m"), ("", "i")] {
+        for (on, off) in [("i", ""), ("s", ""), ("m", ""), ("U", ""), ("is", "m"), ("", "i"), ("is", ""), ("ism", ""), ("sU", ""), ("i", "sm"), ("", "is")] {
             out.push(Flags(on.into(), off.into(), Box::new(b.clone())));
             out.push(Concat(vec![Flags(on.into(), off.into(), Box::new(b.clone())), Lit('a')]));
             out.push(Concat(vec![Lit('B'), Repeat(Box::new(Flags(on.into(), off.into(), Box::new(b.clone()))), 0, Some(1), Q::Greedy)]));
